@@ -86,6 +86,8 @@ type mKey struct {
 	// admissible; tolerated only while that finding is listed as known.
 	staleWake bool
 	lastEnd   string // how the most recent hold on this key ended (unlock / expiry)
+	floodPeak bool   // the queue held > 256 equal requests at once and has not been empty since
+	floodServed int  // grants from the queue since then
 	released  [][16]byte // LockIds whose hold ended recently (generator bias: duplicate unlocks, re-use)
 	ended     map[[16]byte]bool // every LockId that ever held this key and no longer does
 }
@@ -154,9 +156,12 @@ type aInfo struct {
 	refusedUnlocks   int
 	asyncReplies     int
 	queueGrants      int
+	floodLate        int // requests that queued after >= 256 grants out of a queue that had exceeded 256 entries and was not empty
 	timeouts         int
 	timeoutsLongTbl  int
 	expiries         int
+	expiriesLongTbl  int // EXPRIED of a hold that sat in the long expiry table while another hold of that table entry had left before
+	longTblLeft      map[int64]bool // deadlines (second) of long-table holds that left before their deadline
 	expiryGrants     int
 	updates          int
 	updatesApplied   int
@@ -293,7 +298,13 @@ func (m *aMonitor) onReturned(r *aReq) {
 	m.wseq++
 	w := &mWait{req: r, id: r.LockId, count: r.Op.Cnt, prio: prio, queuedAt: m.e.now, tSec: opSeconds(r.Op.T, r.Op.TF, tfMINUTE), wwu: r.Op.TF&tfWWU != 0, seq: m.wseq}
 	// a request that queues must not have been grantable (C04: no admissible request stays queued)
+	if k.floodPeak && k.floodServed >= 256 && len(k.waiters) > 0 {
+		m.info.floodLate++
+	}
 	k.waiters = append(k.waiters, w)
+	if len(k.waiters) > 256 {
+		k.floodPeak = true
+	}
 	if len(k.waiters) > m.info.maxWaiters {
 		m.info.maxWaiters = len(k.waiters)
 	}
@@ -405,6 +416,9 @@ func (m *aMonitor) onExpried(k *mKey, r *aReq, rp *aReply) {
 	} else if m.e.now-h.termsAt < h.eSec {
 		m.viol("C06", "hold (terms of #%d, E=%ds set at t+%d) expired early at t+%d", h.setter, h.eSec, h.termsAt-aEpoch, m.e.now-aEpoch)
 	}
+	if m.longTbl(h) && m.info.longTblLeft[h.termsAt+h.eSec] {
+		m.info.expiriesLongTbl++
+	}
 	k.removeHolder(h)
 	k.lastEnd = "expiry"
 	m.info.holdEndKinds["expiry"] = true
@@ -413,6 +427,21 @@ func (m *aMonitor) onExpried(k *mKey, r *aReq, rp *aReply) {
 	}
 	m.checkCounts(k, r, rp, 0, "EXPRIED")
 	m.valueKeyMaybeGone(k)
+}
+
+// longTbl: the hold is (or will be after ~45 s of re-checks) filed in the long expiry table of its shard
+func (m *aMonitor) longTbl(h *mHold) bool {
+	return h.eSec > 5 && (h.ef&0x0100 != 0 || h.eSec > 45)
+}
+
+// noteLongTblLeave records that a long-table hold left its entry before the deadline (unlock or re-termed)
+func (m *aMonitor) noteLongTblLeave(h *mHold) {
+	if h != nil && m.longTbl(h) && h.termsAt+h.eSec > m.e.now {
+		if m.info.longTblLeft == nil {
+			m.info.longTblLeft = map[int64]bool{}
+		}
+		m.info.longTblLeft[h.termsAt+h.eSec] = true
+	}
 }
 
 func (m *aMonitor) onLockReply(k *mKey, r *aReq, rp *aReply) {
@@ -440,6 +469,7 @@ func (m *aMonitor) onLockReply(k *mKey, r *aReq, rp *aReply) {
 			m.valueReply(k, r, rp, true)
 			h.depth++
 			oldDeadline := h.deadline()
+			m.noteLongTblLeave(h)
 			h.setter, h.termsAt, h.eSec, h.unit = r.Idx, m.e.now, expirySeconds(o), opUnit(o.EF, efMINUTE)
 			h.ef = o.EF
 			// a re-lock replaces the terms like an update does; when it shortens the deadline the statement's
@@ -473,6 +503,12 @@ func (m *aMonitor) onLockReply(k *mKey, r *aReq, rp *aReply) {
 			}
 			k.removeWaiter(w)
 			m.info.queueGrants++
+			if k.floodPeak {
+				k.floodServed++
+				if len(k.waiters) == 0 {
+					k.floodPeak, k.floodServed = false, 0
+				}
+			}
 		} else if len(k.waiters) > 0 && lockedBefore > 0 {
 			// newcomer bypassing a non-empty queue on a held key: only with strictly higher priority
 			head := k.order()[0]
@@ -617,6 +653,7 @@ func (m *aMonitor) onUnlockReply(k *mKey, r *aReq, rp *aReply) {
 			m.info.holdEndKinds["unlock-one-level"] = true
 		} else {
 			h.depth = 0
+			m.noteLongTblLeave(h)
 			k.removeHolder(h)
 			k.lastEnd = "unlock"
 			m.info.holdEndKinds["unlock"] = true
@@ -743,6 +780,7 @@ func (m *aMonitor) afterOp(op aOp) {
 				if applied {
 					oldDeadline := h.deadline()
 					isPrio, _ := opPrio(u.Op)
+					m.noteLongTblLeave(h)
 					h.setter, h.termsAt, h.eSec, h.unit = u.Idx, u.Time, newE, newUnit
 					h.ef = u.Op.EF
 					if h.count != u.Op.Cnt {
